@@ -147,12 +147,15 @@ def check_backward(ctx: Ctx, m, ks, novmap=False):
                 return
 
 
-def mtl_program(rng, T):
+def mtl_program(rng, T, novmap=False):
     M = MTL()
     P = M.P
     n = rng.choice([1, 2, 3])
     x = P.add_leaf((n,), [rng.choice([-2, -1, 1, 2]) for _ in range(n)])
-    g = P.add_aff(lambda t: t[0].clone(), [x], "n0.clone()")[0]
+    if novmap:
+        g = P.add_aff(lambda t: NoBatchedBackward.apply(t[0]), [x], "NoBatchedBackward(n0)")[0]
+    else:
+        g = P.add_aff(lambda t: t[0].clone(), [x], "n0.clone()")[0]
     pool = [g]
     grow(rng, P, pool, rng.choice([1, 2]), max_numel=6)
     feats = [i for i in pool if i != g][: rng.choice([1, 2])] or [g]
@@ -167,8 +170,8 @@ def mtl_program(rng, T):
     return M, g
 
 
-def check_mtl(ctx: Ctx, T, ks):
-    M, g = mtl_program(ctx.rng, T)
+def check_mtl(ctx: Ctx, T, ks, novmap=False):
+    M, g = mtl_program(ctx.rng, T, novmap)
     P = M.P
     leaves = P.leaves()
     w = [ctx.rng.randint(-5, 7) for _ in range(T)]
@@ -189,7 +192,9 @@ def check_mtl(ctx: Ctx, T, ks):
                   "features": M.features, "tasks": M.task_leaves, "shared": M.shared_leaves, "chunk": k,
                   "retain": retain, "weights": w}
             if rerr is not None or rg != mg:
-                ctx.violation(f"mtl_backward with chunk={k}: err={rerr}, {fmt_grads(rg)} vs model {fmt_grads(mg)}", rp)
+                ctx.violation(f"mtl_backward with chunk={k}: err={rerr}, {fmt_grads(rg)} vs model {fmt_grads(mg)}"
+                              + (" (a vmap-incompatible op sits between the features and the parameters; differentiation "
+                                 "must be sequential here)" if novmap else ""), rp)
                 return
             if base is None:
                 base = rg
@@ -216,6 +221,7 @@ def main(ctx: Ctx):
             check_backward(ctx, m, [1] + ([None, 2, m + 1] if m == 1 else []), novmap=True)
         for T in range(1, (6 if quick else 9)):
             check_mtl(ctx, T, [None] + list(range(1, T + 3)))
+            check_mtl(ctx, T, [1] if T > 1 else [None, 1, 2, 3], novmap=True)
     if quick:
         for m in (9, 10, 11, 12):
             ks = sorted(set(ctx.rng.sample(range(1, m + 3), 4)))
